@@ -13,15 +13,22 @@ The two kinds of results composed here:
 §1  Go maps: key lists after an assignment (`map1Set`, `map2SetInner`, `regBumped`).
 §2  `CleanInv st w`: what `CleanRel` asks beyond `StRel` — the inner maps of `testsRegistry.cleanup`
     have pairwise different keys, the SAME keys as the model's flat list, `testEvents.items` is
-    well-formed — is an INVARIANT of `goStep` (every step: `CleanInv.call`, `CleanInv.done`), hence
-    `goRun_cleanRel`: every state reached by `goRun` from a fresh state is in `CleanRel` with the world the
-    model's run reaches.  No hypothesis about the registries is left.
+    well-formed — is an INVARIANT of `goStep` (`CleanInv.call`, `CleanInv.frame`), hence `goRun_cleanInv`
+    (from ANY related start state) and `goRun_reached`: every state reached by `goRun` from a fresh state is
+    in `CleanRel` with the world the model's run reaches.  No hypothesis about the registries is left.
 §3  the model covers every call of a history on one snapshot file (`run_supported`), so
     `goRun_simulates` needs no `unsupported = none` hypothesis; the registry after the run (`RegInv`).
-§4  `goRun_then_Clean`: the composition — the transliterated `Clean`, called in a state reached by
-    `goRun`, is the model's `clean` of the world the model's run reaches.
-§5  C07 `go_matched_survive_clean`, C09 `go_no_update_nothing_removed`, C10 `go_second_clean_*`.
-§6  the record scenario with every hypothesis about the file discharged, and a concrete history.
+§4  `Clean_reached`: the composition — the transliterated `Clean`, called in a state reached by `goRun`, is
+    the model's `clean` of the world the model's run reaches; `Reached.supported`: the model covers that
+    call as soon as the snapshot file is well-formed (`hsup` discharged).
+§5  C07 `go_matched_survive_clean`, `go_call_addresses`; C09 `go_no_update_no_removal` (every failure
+    oracle, any `-run`, any `-count`), `go_no_update_no_loss`; C10 `go_second_clean_changes_nothing`.
+§6  the record scenario: `go_record_fileAfter`, `go_record_then_clean`.
+§7  ANY mix of modes: `goRun_fileAfter` (the flows leave a well-formed file: invariant of the run),
+    `go_matched_survive_clean_any_mode`, `go_addressed_survive_clean`, `go_no_update_no_loss_any_mode`,
+    `go_second_clean_changes_nothing_any_mode`.
+§8  concrete histories (record + clean + sort; `-count=2`; a run that updates and creates; report mode with
+    sort, twice; failing writes).
 -/
 import GoSnaps.Props.Tie.EndToEnd
 import GoSnaps.Props.Tie.CleanTopIO
@@ -591,8 +598,10 @@ Hypotheses that remain, and why:
   (`joinFaithful_abs`: every absolute clean directory; it is about `filepath`, not about go-snaps);
 * about the snapshot file AFTER the run (`FileAfter`): it holds a well-formed entry list (`CleanFile`: every
   header is one `getTestID` recognises — D11 otherwise —, escaped bodies, scanner-clean lines), exists if a
-  call was made, and `natural.Less` is total on its ids if `Sort` is requested.  These are discharged from
-  hypotheses on the INPUTS in the record scenario (§6); for an arbitrary mix of modes they are hypotheses. -/
+  call was made, and `natural.Less` is total on its ids if `Sort` is requested.  All but the last are
+  discharged from hypotheses on the INPUTS (initial file, test names, texts): in the record scenario (§6)
+  and for an arbitrary mix of modes (§7, `goRun_fileAfter`).  Totality of `natural.Less` stays a hypothesis:
+  where it fails `slices.SortFunc` promises nothing and the model has no answer (`C10.natLt_not_total`). -/
 
 /-- what the theorems of this section assume about the snapshot file after the run -/
 structure FileAfter (fs : FS) (p : Text) (es : List Entry) (h : List Step) (sortOpt : Bool) : Prop where
@@ -614,8 +623,9 @@ call that found or created its entry addressed such a slot.  Then after `Clean`
 * the file `p` holds a well-formed entry list `es'` made of entries of `es` that contains every entry of
   `must` — same header, same body, hence the same replayed value.
 
-What is NOT proved here in general (it is proved for the record scenario, §6): that `es` exists, i.e. that
-the flows leave a well-formed file, and that an entry created by a step is still there at the end of the run. -/
+That `es` exists — the flows leave a well-formed file — and that the slot of an entry a step found or created
+is such a slot and is still in the file at the end of the run, is proved in §6 (record scenario) and §7 (any
+mix of modes: `go_matched_survive_clean_any_mode`, `go_addressed_survive_clean`). -/
 theorem go_matched_survive_clean (env : Env) (fs₀ : FS) (c : Cfg) (caller p rel : Text) (h : List Step)
     (parseFile : Text → List GoDecl × Err) (re : Text → Text → Bool × Bool) (cnt : Nat) (err : Err)
     (opts : List Bool)
@@ -654,6 +664,29 @@ theorem go_matched_survive_clean (env : Env) (fs₀ : FS) (c : Cfg) (caller p re
     obtain ⟨_, k2, ⟨es', e1, e2, e3, e4⟩, _⟩ := clean_keeps_count {} _ _ cnt p es must hr.reg.keys
       hr.reg.sclean hcov' hfa.clean (hr.rel.fs ▸ hfa.holds) hall sa fr obsT fs wr crun
     exact ⟨k2, es', e2, e1, e3, e4⟩
+
+/-- **the slot a call addresses is a protected one (`-count=1`).**  In a history run from a fresh process,
+    when the call of `t` that follows `h1` is made, the TRANSLITERATED `syncRegistry.getTestID` hands out the
+    header `[t - k]` with `1 ≤ k ≤ (calls of t in the whole history)`: every entry that a step of the history
+    found or created sits in a slot of the kind `must` ranges over in `go_matched_survive_clean` with
+    `cnt = 1`.  (For `-count = cnt > 1` the history consists of `cnt` executions of every test function, each
+    making the same calls; the ordinals of one execution are then at most `(calls of t) / cnt` — that
+    arithmetic is the hypothesis on `must`, see the `-count=2` history of §8.) -/
+theorem go_call_addresses (env : Env) (fs₀ : FS) (c : Cfg) (caller p rel : Text) (h1 h2 : List Step)
+    (t s : Text) (cmp : Cmp) (x : Nat)
+    (hsp : ∀ t, snapshotPath c caller t false = (p, some rel)) (hok : HistOK h1) :
+    ∃ (mid : St) (k : Nat) (r' : Registry),
+      goRun IOFail.never c caller (freshSt env fs₀) h1 = some mid ∧
+      syncRegistry_getTestID mid.reg p t = some (r', testID t k) ∧ 1 ≤ k ∧
+      k ≤ (calledNames (h1 ++ .call t s cmp x :: h2)).count t / 1 := by
+  obtain ⟨mid, e, r, _⟩ := goRun_simulates' c caller h1 (StRel_init env fs₀) hok
+    (run_supported c caller p rel hsp h1 _)
+  obtain ⟨r', id, hg, _, hid, _⟩ := syncRegistry_getTestID_tied mid.reg _ _ p t r.reg
+  rw [C03.testID_eq] at hid
+  cases hid
+  refine ⟨mid, _, r', e, hg, by omega, ?_⟩
+  rw [Nat.div_one]
+  exact ordinal_le_calls env fs₀ c caller p (fun t => by rw [hsp t]) h1 h2 t s cmp x
 
 /-! ### C09: without update nothing is removed -/
 
@@ -1081,7 +1114,7 @@ theorem goRun_fileAfter (env : Env) (fs₀ : FS) (c : Cfg) (caller p rel : Text)
       FileInv es₀ (calledNames h) (texts h) es ∧
       ∀ sortOpt, (sortOpt = true → TotalOn (es.map tidOf)) → FileAfter st1.fs p es h sortOpt := by
   obtain ⟨st1, hr⟩ := goRun_reached env fs₀ c caller p rel h hsp (HistOK_of_bodies h hns.bodies)
-  obtain ⟨es, h1, hinv, hx⟩ := run_keeps_good c caller p rel hsp es₀ _ _ hns h { env := env, fs := fs₀ } es₀
+  obtain ⟨es, h1, hinv, hx, _⟩ := run_keeps_good c caller p rel hsp es₀ _ _ hns h { env := env, fs := fs₀ } es₀
     (fun _ ht => ht) (fun _ hs => hs) hfile (FileInv.init _ _ hgood)
   refine ⟨st1, es, hr.run, hinv, fun sortOpt hto => ⟨hr.rel.fs ▸ h1, ?_, ?_, hto⟩⟩
   · refine cleanFile_of_good hinv.good (fun o ho => ?_)
@@ -1137,6 +1170,120 @@ theorem go_matched_survive_clean_any_mode (env : Env) (fs₀ : FS) (c : Cfg) (ca
   rw [e1] at e1'; cases e1'
   have hf0 := hfa false (fun hh => by cases hh)
   exact ⟨st1, es, e1, hf0.holds, hf0.clean, hinv, fun hto => hmain es (hfa _ hto)⟩
+
+theorem texts_append (h1 h2 : List Step) : texts (h1 ++ h2) = texts h1 ++ texts h2 := by
+  induction h1 with
+  | nil => rfl
+  | cons st h1 ih => cases st <;> simp [texts, ih]
+
+/-- `FileInv` + recognised headers ⇒ `CleanFile` -/
+theorem cleanFile_of_fileInv {es₀ : List Entry} {N T : List Text} {es : List Entry} (hinv : FileInv es₀ N T es)
+    (hrec₀ : ∀ e ∈ es₀, Recognised e)
+    (htest : ∀ t ∈ N, hasPrefix t [84, 101, 115, 116] = true ∧ (32 : Byte) ∉ t) : CleanFile es := by
+  refine cleanFile_of_good hinv.good (fun o ho => ?_)
+  rcases hinv.ids o ho with hi | ⟨t, ht, k, hi⟩
+  · obtain ⟨o₀, ho₀, e⟩ := List.mem_map.mp hi
+    exact recognised_of_id e.symm (hrec₀ o₀ ho₀)
+  · exact recognised_of_id (b := ⟨testID t k, o.body⟩) hi
+      (C07World.recognised_testID t o.body k (htest t ht).1 (htest t ht).2)
+
+/-- **the file after a run in two parts**: what `goRun_fileAfter` says about the whole run, about the SAME
+    entry lists the file holds after the first part and at the end — no flow ever removes a header
+    (`∀ o ∈ esA, o.id ∈ ids es`) -/
+theorem goRun_fileAfter_split (env : Env) (fs₀ : FS) (c : Cfg) (caller p rel : Text) (es₀ : List Entry)
+    (hA hB : List Step)
+    (hsp : ∀ t, snapshotPath c caller t false = (p, some rel))
+    (hfile : Holds fs₀ p es₀) (hgood : Good es₀)
+    (hns : NoShadowAll es₀ (calledNames (hA ++ hB)) (texts (hA ++ hB)))
+    (hrec₀ : ∀ e ∈ es₀, Recognised e)
+    (htest : ∀ t ∈ calledNames (hA ++ hB), hasPrefix t [84, 101, 115, 116] = true ∧ (32 : Byte) ∉ t)
+    (hce : fsRead fs₀ p ≠ none ∨ shouldCreate env c.update = true) :
+    ∃ aft esA st1 es, goRun IOFail.never c caller (freshSt env fs₀) hA = some aft ∧ Holds aft.fs p esA ∧
+      goRun IOFail.never c caller (freshSt env fs₀) (hA ++ hB) = some st1 ∧
+      (∀ o ∈ esA, o.id ∈ ids es) ∧
+      ∀ sortOpt, (sortOpt = true → TotalOn (es.map tidOf)) → FileAfter st1.fs p es (hA ++ hB) sortOpt := by
+  have hok := HistOK_of_bodies (hA ++ hB) hns.bodies
+  obtain ⟨aft, hrA⟩ := goRun_reached env fs₀ c caller p rel hA hsp hok.left
+  obtain ⟨st1, hr⟩ := goRun_reached env fs₀ c caller p rel (hA ++ hB) hsp hok
+  obtain ⟨esA, a1, ainv, ax, _⟩ := run_keeps_good c caller p rel hsp es₀ _ _ hns hA { env := env, fs := fs₀ } es₀
+    (fun t ht => by rw [calledNames_append]; exact List.mem_append_left _ ht)
+    (fun s hs => by rw [texts_append]; exact List.mem_append_left _ hs) hfile (FileInv.init _ _ hgood)
+  obtain ⟨es, b1, binv, bx, bmono⟩ := run_keeps_good c caller p rel hsp es₀ _ _ hns hB
+    (C01World.run c caller { env := env, fs := fs₀ } hA).1 esA
+    (fun t ht => by rw [calledNames_append]; exact List.mem_append_right _ ht)
+    (fun s hs => by rw [texts_append]; exact List.mem_append_right _ hs) a1 ainv
+  rw [← run_append] at b1 bx
+  refine ⟨aft, esA, st1, es, hrA.run, hrA.rel.fs ▸ a1, hr.run, bmono, fun sortOpt hto =>
+    ⟨hr.rel.fs ▸ b1, cleanFile_of_fileInv binv hrec₀ htest, ?_, hto⟩⟩
+  intro hne
+  rw [hr.rel.fs]
+  apply bx
+  rw [hrA.wenv]
+  rcases hce with h' | h'
+  · exact Or.inl (ax (Or.inl h'))
+  · by_cases hnA : calledNames hA = []
+    · refine Or.inr ⟨h', fun hnB => hne ?_⟩
+      rw [calledNames_append, hnA, hnB]; rfl
+    · exact Or.inl (ax (Or.inr ⟨h', hnA⟩))
+
+/-- **C07 in the words of the property: what a step addressed and found or created survives `Clean`**
+    (`-count=1`, ANY mix of modes).
+
+Split the history at any call: `h1 ++ call t s cmp x :: h2`.  The transliterated `getTestID` hands that call
+the header `[t - k]`.  Let `esA` be what the file holds right after the call and `es` what it holds at the
+end of the run (both exist and are well-formed: `goRun_fileAfter_split`).  If the call FOUND OR CREATED its
+entry — `[t - k]` is a header of `esA` — then it is a header of `es` (no flow removes a header), and after
+`Clean` (any mode, any sort option — `natural.Less` total on the ids if sorting) the entry `⟨[t - k], b⟩` of
+`es` is not listed as obsolete and is still in the file `p`, with the body `b` it had when `Clean` was called. -/
+theorem go_addressed_survive_clean (env : Env) (fs₀ : FS) (c : Cfg) (caller p rel : Text)
+    (es₀ : List Entry) (h1 h2 : List Step) (t s : Text) (cmp : Cmp) (x : Nat)
+    (parseFile : Text → List GoDecl × Err) (re : Text → Text → Bool × Bool) (err : Err) (opts : List Bool)
+    (hsp : ∀ t, snapshotPath c caller t false = (p, some rel))
+    (hfile : Holds fs₀ p es₀) (hgood : Good es₀)
+    (hns : NoShadowAll es₀ (calledNames (h1 ++ .call t s cmp x :: h2)) (texts (h1 ++ .call t s cmp x :: h2)))
+    (hrec₀ : ∀ e ∈ es₀, Recognised e)
+    (htest : ∀ t' ∈ calledNames (h1 ++ .call t s cmp x :: h2),
+      hasPrefix t' [84, 101, 115, 116] = true ∧ (32 : Byte) ∉ t')
+    (hce : fsRead fs₀ p ≠ none ∨ shouldCreate env c.update = true)
+    (hre : ∀ s, (re [] s).1 = true)
+    (hj : (Generated.shouldClean env && !env.isCI) = true → JoinFaithful (fpDir p)) :
+    ∃ (mid : St) (k : Nat) (r' : Registry),
+      goRun IOFail.never c caller (freshSt env fs₀) h1 = some mid ∧
+      syncRegistry_getTestID mid.reg p t = some (r', testID t k) ∧
+    ∃ aft esA, goRun IOFail.never c caller (freshSt env fs₀) (h1 ++ [.call t s cmp x]) = some aft ∧
+      Holds aft.fs p esA ∧
+    ∃ st1 es, goRun IOFail.never c caller (freshSt env fs₀) (h1 ++ .call t s cmp x :: h2) = some st1 ∧
+      Holds st1.fs p es ∧ CleanFile es ∧
+      (testID t k ∈ ids esA → testID t k ∈ ids es) ∧
+      ((opts.head?.getD false = true → TotalOn (es.map tidOf)) →
+      ∃ (fs2 : FS) (obsFiles obsTests : List Text),
+        Generated.FuncsIO.Clean IOFail.never st1 parseFile re [] (((1 : Nat) : Int), err) () opts =
+          some { st1 with fs := fs2, stdout := st1.stdout ++ summaryLine (Generated.FuncsIO.summary obsFiles
+            obsTests (GoSem.len st1.skipped) st1.events (cleanUpd st1)) } ∧
+        ∀ b, (⟨testID t k, b⟩ : Entry) ∈ es →
+          tidOf ⟨testID t k, b⟩ ∉ obsTests ∧
+          ∃ es', Holds fs2 p es' ∧ CleanFile es' ∧ (⟨testID t k, b⟩ : Entry) ∈ es') := by
+  have hH : h1 ++ .call t s cmp x :: h2 = (h1 ++ [.call t s cmp x]) ++ h2 := by simp
+  have hok := HistOK_of_bodies _ hns.bodies
+  obtain ⟨mid, k, r', emid, hg, hk1, hk2⟩ := go_call_addresses env fs₀ c caller p rel h1 h2 t s cmp x hsp hok.left
+  obtain ⟨aft, esA, st1, es, eA, hA, e1, hmono, hfa⟩ := goRun_fileAfter_split env fs₀ c caller p rel es₀
+    (h1 ++ [.call t s cmp x]) h2 hsp hfile hgood (hH ▸ hns) hrec₀ (hH ▸ htest) hce
+  rw [← hH] at e1 hfa
+  obtain ⟨st1', e1', hmain⟩ := go_matched_survive_clean env fs₀ c caller p rel (h1 ++ .call t s cmp x :: h2)
+    parseFile re 1 err opts hsp hok (by decide) hre hj
+  rw [e1] at e1'; cases e1'
+  have hf0 := hfa false (fun hh => by cases hh)
+  refine ⟨mid, k, r', emid, hg, aft, esA, eA, hA, st1, es, e1, hf0.holds, hf0.clean, ?_, fun hto => ?_⟩
+  · intro hm
+    obtain ⟨o, ho, e⟩ := List.mem_map.mp hm
+    rw [← e]; exact hmono o ho
+  · obtain ⟨fs2, oF, oT, hc, hk⟩ := hmain es (hfa _ hto)
+    refine ⟨fs2, oF, oT, hc, fun b hb => ?_⟩
+    obtain ⟨q1, es', q2, q3, q4, _⟩ := hk [⟨testID t k, b⟩] (fun e he => by
+        simp only [List.mem_singleton] at he; subst he; exact hb)
+      (fun e he => by
+        simp only [List.mem_singleton] at he; subst he; exact ⟨t, k, rfl, hk1, hk2⟩)
+    exact ⟨q1 _ (by simp), es', q2, q3, q4 _ (by simp)⟩
 
 /-- **C09, end to end, ANY mix of modes in the run** (`go_no_update_no_loss` with `FileAfter` discharged):
     whatever the run did, a `Clean` in a mode without deletion removes no path, leaves every other file
@@ -1321,6 +1468,16 @@ example :
       Generated.FuncsIO.Clean IOFail.never st1 xParse cRe [] (1, Err.nil) () []).map (fun s => s.fs) =
       some [(xp, render [⟨testID tA 1, [110]⟩, ⟨testID tB 1, [122]⟩])] := by
   constructor <;> decide +kernel
+
+/-- `go_addressed_survive_clean` applies to the second call of that run ("TestB" creates "[TestB - 1]"):
+    all hypotheses by evaluation -/
+example := go_addressed_survive_clean envUpdate fs₃ {} xc xp C01World.exRel es₃ [.call tA [110] .raw 1]
+  [.done 1, .done 2] tB [122] .escaped 2 xParse cRe Err.nil [] C01World.exPath_spec (Or.inl rfl) (by decide +kernel)
+  (noShadowAll_of_noBracket es₃ _ _ (by decide +kernel) (by decide +kernel) (by decide +kernel) (by decide +kernel)
+    (by decide +kernel))
+  (by decide +kernel) (by decide +kernel) (Or.inl (by decide +kernel)) (fun _ => rfl) (fun _ => exJoin)
+
+/-! ### report mode with `Sort`: C09 and C10 -/
 
 /-- **C09 applies** (report mode, `Sort`): hypotheses by evaluation; the file ends up holding a permutation of
     ALL its entries, the stale one included, and no path appears or disappears -/
